@@ -317,9 +317,13 @@ def handle_violations(prop, binary, build_desc, engine, mode, batch, vseed, env_
         env = dict(os.environ)
         if env_extra:
             env.update(env_extra)
-        p = subprocess.run([binary, engine, "minimize", "--trace", raw, "--out", mini, "--budget", "30"],
-                           stdout=subprocess.PIPE, stderr=subprocess.PIPE, text=True, env=env)
-        if p.returncode == 0 and os.path.exists(mini):
+        if vclass == "process-hung":
+            # every candidate of a hanging trace costs a full watchdog period: reported as found
+            p = None
+        else:
+            p = subprocess.run([binary, engine, "minimize", "--trace", raw, "--out", mini, "--budget", "30"],
+                               stdout=subprocess.PIPE, stderr=subprocess.PIPE, text=True, env=env)
+        if p is not None and p.returncode == 0 and os.path.exists(mini):
             with open(mini) as f:
                 m = json.load(f)
         else:
